@@ -78,6 +78,8 @@ static void skinny64_ctr_vec128_cleanup(Skinny64CTR_t *ctr)
     }
 }
 
+static void skinny64_ctr_vec128_reset_keystream(Skinny64CTRVec128Ctx_t *ctx);
+
 static int skinny64_ctr_vec128_set_key(Skinny64CTR_t *ctr, const void *key, unsigned size)
 {
     Skinny64CTRVec128Ctx_t *ctx;
@@ -94,7 +96,7 @@ static int skinny64_ctr_vec128_set_key(Skinny64CTR_t *ctr, const void *key, unsi
         return 0;
 
     /* Reset the keystream */
-    ctx->offset = SKINNY64_CTR_BLOCK_SIZE;
+    skinny64_ctr_vec128_reset_keystream(ctx);
     return 1;
 }
 
@@ -115,7 +117,7 @@ static int skinny64_ctr_vec128_set_tweaked_key
         return 0;
 
     /* Reset the keystream */
-    ctx->offset = SKINNY64_CTR_BLOCK_SIZE;
+    skinny64_ctr_vec128_reset_keystream(ctx);
     return 1;
 }
 
@@ -134,7 +136,7 @@ static int skinny64_ctr_vec128_set_tweak
         return 0;
 
     /* Reset the keystream */
-    ctx->offset = SKINNY64_CTR_BLOCK_SIZE;
+    skinny64_ctr_vec128_reset_keystream(ctx);
     return 1;
 }
 
@@ -156,6 +158,44 @@ STATIC_INLINE void skinny64_ctr_increment
         inc += ptr[0];
         ptr[0] = (uint8_t)inc;
         inc >>= 8;
+    }
+}
+
+/* Decrement a specific column in an array of row vectors */
+STATIC_INLINE void skinny64_ctr_decrement
+    (SkinnyVector8x16_t *counter, unsigned column, unsigned dec)
+{
+    uint8_t *ctr = ((uint8_t *)counter) + column * 2;
+    uint8_t *ptr;
+    unsigned index;
+    for (index = 8; index > 0; ) {
+        --index;
+        ptr = ctr + (index & 0x06) * 8;
+#if SKINNY_LITTLE_ENDIAN
+        ptr += index & 0x01;
+#else
+        ptr += 1 - (index & 0x01);
+#endif
+        dec = ptr[0] - dec;
+        ptr[0] = (uint8_t)dec;
+        dec = (dec >> 8) & 1;
+    }
+}
+
+/* Resets the keystream after a key or tweak change.  As in the generic
+   back end, the rest of the current keystream block is discarded and
+   the next block continues with the following counter value: the lane
+   counters are wound back over the whole blocks of the current batch
+   that have not been used yet */
+static void skinny64_ctr_vec128_reset_keystream(Skinny64CTRVec128Ctx_t *ctx)
+{
+    if (ctx->offset < SKINNY64_CTR_BLOCK_SIZE) {
+        unsigned used = (ctx->offset + SKINNY64_BLOCK_SIZE - 1) / SKINNY64_BLOCK_SIZE;
+        unsigned unused = (SKINNY64_CTR_BLOCK_SIZE / SKINNY64_BLOCK_SIZE) - used;
+        unsigned lane;
+        for (lane = 0; lane < 8; ++lane)
+            skinny64_ctr_decrement(ctx->counter, lane, unused);
+        ctx->offset = SKINNY64_CTR_BLOCK_SIZE;
     }
 }
 
